@@ -223,4 +223,40 @@ PROPS = {
              'transitions; distinct = distinct case text',
         explanation='C07_la_dfa_check_sound: accepted automaton = exactly the lookahead sets, for all strings; la_depth_check: k = longest string.',
     ),
+    'C16': dict(
+        level='proof',
+        level_text='Rocq theorems on the verified regex development: a scanner mode whose look-ahead-free patterns match every single code point '
+                   'never leaves a gap under the longest-match rule (C16_total_mode_no_gap), and total_on_chars_list_cex decides that totality '
+                   '(sound in both directions, with a counterexample code point). Tie to the code: for generated PAR grammars with random '
+                   'scanner directives (%auto_newline_off, %auto_ws_off, %allow_unmatched, extra scanner states, comments) the regex lists of '
+                   'the REAL modes (generate_build_information) are checked: every mode without %allow_unmatched must be total.',
+        level_note='Trusted: Coq kernel, extraction, OCaml driver, regex-syntax as pattern reader, HIR->regex translation. That the error token '
+                   'makes the parse fail rests on parser soundness (C01/C03: its type is in no production) and on scnr2 implementing longest '
+                   'match (C13). The allow-unmatched half (gaps kept in the tree, ignored by the parser) is exercised under C14/C17.',
+        technique='Rocq proof (totality of a regex list decided over the interval partition; no-gap lemma for the longest-match tokenizer) evaluated on the real mode tables',
+        streams=[dict(cmd='c16', quick=1500, thorough=60000)],
+        rule='PAR grammars with random scanner directives and 1-4 terminals from a pool of 17 patterns (literals, classes, \\s+, \\n, ., look-ahead), '
+             'optionally a second scanner state; one case per scanner state; non-trivial = state without %allow_unmatched; distinct = '
+             'distinct case text',
+        explanation='Known finding D5 (line feed with %auto_newline_off).',
+    ),
+    'C09': dict(
+        level='proof',
+        level_text='Rocq theorems about a faithful model of transform_productions (extract_options, separate_alternatives, eliminate_single_rep '
+                   'LL/LR, eliminate_single_grp, the outer loops, finalize) and generate_name: every rewrite step preserves the language '
+                   '(C09_canon_step_preserves), the measure decreases so the loops terminate, the resulting BNF derives for every user '
+                   'non-terminal exactly what the EBNF grammar matches (C09_canon_preserves_lang, both grammar types), and helper names are '
+                   'fresh (C09_generate_name_fresh, C09_canon_fresh). The verified EBNF recogniser emember (C09_emember_sound/complete) is '
+                   'the independent oracle. Tie to the code: parol\'s real canonical productions for generated EBNF grammars are compared '
+                   '(a) with emember/member on all short strings for every defined non-terminal, (b) exactly with the model.',
+        level_note='Trusted: Coq kernel, extraction, OCaml driver, Rust harness (PAR rendering of the EBNF grammar, read-out of GrammarConfig). '
+                   'Attributes/clipping/scanner states are erased in the model. Language equality on the real output is checked up to a '
+                   'length bound (3-6); exact agreement with the model is recorded (not required).',
+        technique='Rocq proof (rewrite-step language preservation + measure; verified EBNF recogniser) + differential run on the real canonicalization',
+        streams=[dict(cmd='c09', quick=1200, thorough=40000)],
+        rule='random EBNF grammars (1-4 non-terminals, nesting depth <= 2 of groups/optionals/repetitions, empty alternatives), every 4th with '
+             'user names that look like generated helper names (SList, SOpt1, ...), alternately LL and LALR; non-trivial = the grammar has '
+             'a group/optional/repetition; distinct = distinct case text',
+        explanation='D16 (helper-name collision with a nested-only non-terminal) repaired by a fix: commit.',
+    ),
 }
